@@ -162,6 +162,9 @@ func (c *C08) Run(x *engine.Ctx) *engine.Violation {
 	if x.Run < 300 && ops.Bin() != "" {
 		return c.cliGenParams(x) // enumerated CLI sweep: 2 modes x 6 batch sizes x 25 depths (1..32)
 	}
+	if x.Run%6 == 5 {
+		return c.concurrentCallers(x) // World L: interleaved callers of the helpers, each judged by its own packing
+	}
 	if t.Chance(1, 3) {
 		return c.helperOnly(x) // the helpers alone over arbitrary in-range parameter sets (no circuit needed)
 	}
